@@ -44,6 +44,8 @@ def select(prop, t, sd):
     cur = corpus.curated(); cov = corpus.coverage_family(); nm = corpus.near_miss()
     nrnd = {'quick': 6, 'thorough': 50}[t]
     rnd = [corpus.random_grammar(sd, i, rich) for rich in (0, 1, 2) for i in range(nrnd)]
+    rnd += [corpus.recursive_random_grammar(sd, i) for i in range({'quick': 30, 'thorough': 300}[t])]      # most are rejected (LL(1) conflicts)
+    rnd += [corpus.recursive_template_grammar(sd, i) for i in range({'quick': 16, 'thorough': 160}[t])]
     rec = corpus.recovery_family()
     if t == 'quick': rec = rec[sd % 2::2]
     pf = corpus.parts_family()
